@@ -217,7 +217,7 @@ def units(tier, seed):
     def add(name, func, **kw):
         out.append(Unit('C02/' + name, 'symx.props.c02', func, kw, {'property': PROP}))
 
-    D, P = (3, 2) if tier == 'quick' else (5, 2)
+    D, P = (3, 2) if tier == 'quick' else (6, 3)
     shapes = SHAPES_Q if tier == 'quick' else SHAPES_Q + [(1,), (P, 2), (2, 1, 1)]
     pairs = []
     for ls, rs in itertools.product(shapes, shapes):
